@@ -467,7 +467,7 @@ class StrConverter(Converter):
         if converter.autostrip: val = val.strip()
         max_len = converter.max_len
         val_len = len(val)
-        if max_len and val_len > max_len:
+        if max_len is not None and val_len > max_len:
             throw(ValueError, 'Value for attribute %s is too long. Max length is %d, value length is %d'
                              % (converter.attr, max_len, val_len))
         return val
